@@ -51,8 +51,59 @@ NEEDS = {
 }
 
 
+NEEDS2 = {
+    'C01/1': ('remove/remove_entry recover the slot index with ptr::offset_from (no enumerate)', 'a zero-sized (K, V) pair type: removing a present key panics'),
+    'C01/2': ('drain() no longer zeroes len; Drain::drop does (Drain holds &mut usize)', 'mem::forget of a partially consumed drain (or a destructor panicking in Drain::drop)'),
+    'C02/1': ('new Map::clone_from override that clone_from()s into slots >= self.len', 'clone_from with a longer source after the target had been longer earlier, droppable K/V'),
+    'C02/2': ('len reset moved from drain() into Drain::drop', 'partial consumption then mem::forget, or a panicking destructor inside Drain::drop'),
+    'C03/1': ('insert_ii: self.pairs[i] = MaybeUninit::new((k, v)) -- the pair is wrapped before the bounds check', 'release build + full container + new key: the rejected key/value are never destroyed'),
+    'C03/2': ('Set::insert via checked_insert, folding the refused case into `false`', 'full Set (or N = 0) + new value: silently dropped instead of panicking'),
+    'C04/1': ('Set::from([T; N]) reads items out of the array with ptr::read and forgets the array afterwards', 'an Eq that panics after at least one insert: items owned twice during unwinding'),
+    'C04/2': ('IntoValues::next reads the value, drops the key in place, then lowers len', 'into_values() on a map whose key destructor panics'),
+    'C05/1': ('Map::clone_from override overwriting live keys in place', 'same keys in different slot order and a Clone that panics part-way: duplicate keys remain'),
+    'C05/2': ('FromIterator trusts size_hint() and uses insert_unchecked when upper <= N', 'release build + iterator under-reporting its upper bound with more than N distinct keys'),
+    'C06/1': ('get_disjoint_unchecked_mut sorts with the stable sort_by_key (alloc) + extern crate alloc', '171 or more of the requested keys found: the stable sort allocates its scratch buffer'),
+    'C06/2': ('Display for Map renders into a String when the format spec has a width', 'formatting with a width ({:>30})'),
+    'C08/1': ('is_subset resumes the scan of `other` instead of restarting it (subsequence test)', 'common elements in a different relative order in the two operands'),
+    'C08/2': ('Difference keeps its size_hint lower bound from construction time', 'partially consumed iterator with |left| > |right| and a common element behind the consumed prefix'),
+    'C09/1': ('Iter::any / Iter::all overrides run on a snapshot and never advance the iterator', 'the same iter() used again after any()/all()'),
+    'C09/2': ('Values::fold override implemented with rfold', 'internal iteration (for_each, fold, last) over values()'),
+    'C10/1': ('IntoIter::last override returns slot 0 but shortens the map at the end', 'last() on into_iter() with at least two droppable pairs'),
+    'C10/2': ('drain() leaves len alone; Drain::drop resets it', 'mem::forget of a drain after taking items; destructor panicking in Drain::drop'),
+    'C11/1': ('or_insert_with_key evaluates default(self.key()) before the match', 'occupied entry + closure with an observable effect'),
+    'C11/2': ('entry() borrows the free slot &mut pairs[len] for the VacantEntry', 'absent key on a full map (or N = 0): entry() itself panics'),
+    'C12/1': ('insert_ii replaces the whole pair when !needs_drop::<K>()', 'key type without drop glue whose Eq ignores a field, second insert of an equal key'),
+    'C12/2': ('insert_key_value on a full map goes through get_mut + replace of the value only', 'len == N and an equal-but-distinguishable key'),
+    'C13/1': ('overlap pre-check skipped when size_of::<V>() == 0', 'zero-sized value type + a repeated present key'),
+    'C13/2': ('worker splits &mut pairs[..=last] instead of [..len]', 'N == 0 and J >= 2: spurious panic'),
+    'C14/1': ('explicit PartialEq::ne that ignores keys missing from `other`', '!= on equal-length maps with different key sets'),
+    'C14/2': ('identity short-circuit ptr::addr_eq(self, other) in Map::eq', 'a value that is not equal to itself (NaN) compared with its own container'),
+    'C15/1': ('Map::clone_from override whose zip order discards one fresh clone and clones it again', 'clone_from into a shorter destination, clone-counting element type'),
+    'C15/2': ('Map::clone fast path for a full map via array Clone + transmute_copy', 'len == N >= 1 and droppable K/V: elements destroyed twice'),
+    'C16/1': ('From<[(K,V);N]> adopts the array as storage and folds repeats with swap-remove', 'two different repeated keys (or one key three times): wrong value / key object kept'),
+    'C16/2': ('Extend<T> de-duplicates runs of equal adjacent items before inserting', 'adjacent equal-but-distinguishable items: the last object of a run is stored, not the first'),
+    'C18/1': ('insert_i: capacity debug_assert moved in front of the scan', 'debug build + full map + present key: insert_unchecked panics inside its contract'),
+    'C18/2': ('get_disjoint_unchecked_mut tracks resolved requests in a u64 bit mask', 'more than 64 pairwise different keys'),
+    'C20/1': ('deserialize_in_place override merges into the old contents', 'deserialize_in_place into a non-empty target'),
+    'C20/2': ('Serialize via collect_seq(self) also for Map', 'any self-describing format (a Map is emitted as a sequence of pairs)'),
+    'C07/1': ('(see notes.md)', '(see notes.md)'), 'C07/2': ('(see notes.md)', '(see notes.md)'),
+    'C17/1': ('(see notes.md)', '(see notes.md)'), 'C17/2': ('(see notes.md)', '(see notes.md)'),
+}
+
+
 def main():
     os.makedirs(DST, exist_ok=True)
+    rows = []
+    rounds = [(NEEDS, OUT, RES, 0)]
+    if len(sys.argv) > 2:
+        rounds.append((NEEDS2, '/tmp/seed/out2', sys.argv[2], 2))
+    for needs, OUTD, RESD, off in rounds:
+        rows += one_round(needs, OUTD, RESD, off)
+    for r in rows:
+        print('%-9s %s' % r)
+
+
+def one_round(NEEDS, OUT, RES, off):
     rows = []
     for key in sorted(NEEDS):
         prop, n = key.split('/')
@@ -60,6 +111,7 @@ def main():
         src = os.path.join(OUT, prop, n)
         cf = os.path.join(RES, name + '.confirm.json')
         kf = os.path.join(RES, name + '.checks.json')
+        key = '%s/%d' % (prop, int(n) + off)
         if not (os.path.exists(src) and os.path.exists(cf)):
             rows.append((key, 'no confirmation yet'))
             continue
@@ -77,15 +129,15 @@ def main():
                 checks = json.load(open(kf))
             except Exception:
                 checks = {}
-        d = os.path.join(DST, '%s-%s' % (prop, n))
+        d = os.path.join(DST, '%s-%d' % (prop, int(n) + off))
         os.makedirs(d, exist_ok=True)
         for f in ('patch.diff', 'demo.rs', 'notes.md'):
             if os.path.exists(os.path.join(src, f)):
                 shutil.copy(os.path.join(src, f), os.path.join(d, f))
         fired = sorted(p for p, v in checks.items() if isinstance(v, dict) and v.get('fired'))
         profile = 'dev and release' if not conf['demo_patched']['dev'] else 'release only (debug assertions hide it)'
-        if prop == 'C20':
-            profile += '; needs --features serde'
+        if conf.get('demo_features'):
+            profile += '; needs --features ' + conf['demo_features']
         meta = {
             'breaks_property': prop,
             'change': NEEDS[key][0],
@@ -106,8 +158,7 @@ def main():
         }
         json.dump(meta, open(os.path.join(d, 'meta.json'), 'w'), indent=1)
         rows.append((key, 'kept; fired: %s' % ', '.join(fired)))
-    for r in rows:
-        print('%-7s %s' % r)
+    return rows
 
 
 if __name__ == '__main__':
